@@ -43,6 +43,10 @@ def plan(tier, seed):
         for ng in (2, 3):
             for extra in (1, 2, 3, 4):
                 shards.append(("index_low", li, ng, tier, extra))
+    for li in (6, 8):
+        for ng in (1, 2, 3):
+            for extra in ((0, 1, 2, 3) if tier == "quick" else range(10)):
+                shards.append(("index_wide", li, ng, tier, extra))
     shards.append(("callers",))
     k = seed % len(shards)
     return shards[k:] + shards[:k]
@@ -70,10 +74,13 @@ def run_shard(desc):
         # score_and_refine (behind scorethem) is declared threadsafe: two indexers in two python threads are inside it at once
         from vt.props import c06
         return c06._run_callers(("callers",))
-    only_low, extra_shift = False, 0
+    only_low, extra_shift, wide = False, 0, False
     if desc[0] == "index_low":
         _, li, ng, tier, extra_shift = desc
         only_low = True
+    elif desc[0] == "index_wide":
+        _, li, ng, tier, extra_shift = desc
+        wide = True
     else:
         _, li, ng, tier = desc
     from ImageD11 import indexing, unitcell as ucm
@@ -104,6 +111,10 @@ def run_shard(desc):
     combos += [(0.01, 0.002, -2.0, 0.005, "ideal"), (0.01, 0.002, -2.0, 0.005, "ideal+1")]
     if only_low:
         combos = [(0.02, ct, mf, 0.005, "ideal") for ct in (0.002, -0.002) for mf in (0.08, 0.2, 0.3)]
+    if wide:
+        # generous ring tolerances (still below a third of the smallest d*): in a low-symmetry cell successive reflections are closer than
+        # the tolerance over long stretches of d*, a ring must still not span more than the tolerance
+        combos = [(0.01, 0.002, 0.5, dt, "ideal") for dt in (0.05, 0.02)]
     for hkl_tol, ctol, mfrac, ds_tol, kind in combos:
         if ctol < 0 and ng > 3:
             continue        # all-candidates mode is quadratic; kept to the small grain sets
@@ -180,7 +191,7 @@ def run_shard(desc):
         if ng >= 2 or kind != "ideal":
             sh.nontrivial += 1
         sh.outcomes.add((kind, len(found) - n_expected))
-    if only_low:
+    if only_low or wide:
         sh.sample(dict(case, reflections_per_grain=nref, found=len(found)), limit=1)
         return sh
     # ---- further ways of driving the search, ideal data, one hkl_tol: (a) only one ring available (data restricted to it, or
@@ -318,7 +329,9 @@ def replay(case):
         from vt.props import c06
         return c06.replay(case)
     os.environ["VERIF_SEED"] = str(case.get("seed", 0))
-    if case.get("orientation_set"):
+    if case.get("ds_tol", 0) > 0.01:
+        r = run_shard(("index_wide", case["lattice"], case["ngrains"], "thorough", case.get("orientation_set", 0)))
+    elif case.get("orientation_set"):
         r = run_shard(("index_low", case["lattice"], case["ngrains"], "thorough", case["orientation_set"]))
     else:
         r = run_shard(("index", case["lattice"], case["ngrains"], "thorough"))
